@@ -2576,9 +2576,9 @@ fix_rrul_dflts(struct rrulsp_s rr, echs_instant_t from, bool multi)
 		   !bi447_has_bits_p(&rr.dow) &&
 		   !bi383_has_bits_p(&rr.doy) &&
 		   !bi31_has_bits_p(rr.dom) &&
-		   !bui31_has_bits_p(rr.mon) &&
 		   rr.scale == SCALE_GREGORIAN) {
-		/* BYWEEKNO on its own goes with DTSTART's weekday */
+		/* BYWEEKNO on its own, or limited to months, goes with
+		 * DTSTART's weekday */
 		ass_bi447(&rr.dow, echs_scale_wday(rr.scale, p.y, p.m, p.d));
 		return rr;
 	} else if (rr.freq == FREQ_WEEKLY &&
